@@ -62,6 +62,8 @@ type Genesis struct {
 	Balances  []int64 `json:"balances"` // per account index
 	// Kilo: accounts whose genesis balance is a thousand times the listed one (amounts beyond 2^63)
 	Kilo []int `json:"kilo,omitempty"`
+	// Quad: accounts holding four times the listed balance (1.6e19: 64 bits, just below 2^64)
+	Quad []int `json:"quad,omitempty"`
 	Dust      []int64 `json:"dust,omitempty"` // per account: balance in a second denomination ("dust")
 	// Third: per account balance in a third denomination ("aaa", sorts before the others) that nothing ever moves:
 	// three-coin balances for the coin-set arithmetic, conservation is checked per denomination
@@ -96,8 +98,8 @@ type Evidence struct {
 
 type Fault struct {
 	Replica int    `json:"replica"`
-	Kind    string `json:"kind"` // restart | crash_commit | power_loss
-	K       int    `json:"k"`    // crash_commit: write event index within the Commit (mod #events unless Exact); power_loss: events undone
+	Kind    string `json:"kind"` // restart | crash_commit | power_loss | stall
+	K       int    `json:"k"`    // crash_commit: write event index within the Commit (mod #events unless Exact); power_loss: events undone; stall: the replica's log sink stalls (simulated time jumps 3 s) at every other line from line K of the block on
 	Exact   bool   `json:"exact,omitempty"`
 	// IOErr: the fault is an I/O error on that write (it panics, the database keeps working while the panic unwinds
 	// and for whatever the application does before the process is gone), not the death of the process at that write
